@@ -336,6 +336,21 @@ def run_real(clock, kind, obs, via, warm, mode):
                                             T(END)))
         s.wait_quiescent()
         notes = []
+        if mode in ("upto-mid", "uptoi-mid", "upto-1-step"):
+            # a bounded leg first; the plain start() below must finish the
+            # replication whatever kind of bound paused it
+            try:
+                if mode == "upto-mid":
+                    sim.run_up_to(T(base_off + 2.0))
+                elif mode == "uptoi-mid":
+                    sim.run_up_to_including(T(base_off + 2.0))
+                else:
+                    sim.run_up_to(T(base_off + 1.0))
+                s.wait_quiescent()
+                if mode == "upto-1-step":
+                    sim.step()
+            except DSOLError:
+                pass
         if mode == "step-all":
             for _ in range(len(obs) + 2):
                 try:
@@ -509,7 +524,8 @@ def run(ctx):
     for kind in KINDS:
         for via in VIAS:
             for warm in (0.0, 2.0, END):
-                for mode in ("run", "step-all", "stop-at-first"):
+                for mode in ("run", "step-all", "stop-at-first", "upto-mid",
+                             "uptoi-mid", "upto-1-step"):
                     for clock in ("float", "duration", "float@100",
                                   "duration@-10"):
                         if quick and clock != "float" and mode != "run":
@@ -544,7 +560,8 @@ def run(ctx):
         "with the warm-up event), value in %s x statistic in %s x feeding "
         "route in %s x run mode in {uninterrupted, stepped through every "
         "event then started, paused by a handler stop at the first "
-        "observation and resumed} x clock in {float, Duration}. Oracle: "
+        "observation and resumed, a run_up_to(2) / run_up_to_including(2) / "
+        "run_up_to(1)+step() leg followed by plain start()} x clock in {float, Duration}. Oracle: "
         "reference DEVS order decides which observations lie at/after the "
         "warm-up reset; the statistic must equal (bit-identical getters) an "
         "ordinary Counter/Tally/WeightedTally fed those observations; the "
